@@ -273,7 +273,17 @@ pub fn check_run(run: &Run, shared: Option<(&BuiltScen, &URef)>) -> C04Result {
         res.skipped = Some(u.why.clone());
         return res;
     }
-    let mut w = World::with_built(vec![built.clone()], &run.specs, run.execs);
+    // scenario 0 is the reference; further scenarios of a run are the *same
+    // contents built along other histories* (other table layouts): a worker given
+    // such a copy must still produce the reference's showdowns position by position
+    let mut builts = vec![built.clone()];
+    for sc in run.scens.iter().skip(1) {
+        builts.push(BuiltScen { scen: sc.clone(), ranges: Arc::new(sc.build_ranges()) });
+    }
+    if builts.len() > 1 {
+        *res.probes.entry("runs_with_workers_on_differently_built_equal_ranges".into()).or_insert(0) += 1;
+    }
+    let mut w = World::with_built(builts, &run.specs, run.execs);
     w.drain_cap = 64 + 8 * built.scen.product().max(1) * (NPOS as u64 + 2);
     w.run_all(&run.steps);
     w.finish_all();
@@ -505,6 +515,23 @@ fn gen_case(seed: u64, faults_on: bool, max_players: usize, small: bool) -> Case
     if specs.len() == 1 && specs[0].scope == Some((FIRST, TERMINAL)) && rng.chance(1, 2) {
         specs[0].scope = None;
     }
+    // one run in six hands some workers a differently built copy of the same ranges
+    let mut scens = vec![scen.clone()];
+    if !scen.players.is_empty() && rng.chance(1, 6) {
+        for _ in 0..rng.range(1, 2) {
+            let mut c = scen.clone();
+            for p in c.players.iter_mut() {
+                rng.shuffle(&mut p.entries);
+                p.hash_seed = if rng.chance(1, 2) { rng.next_u64() | 1 } else { 0 };
+                p.hint = if rng.chance(1, 2) { Some(*rng.pick(&[0usize, 3, 7, 28, 112, 448])) } else { None };
+                p.how = if rng.chance(1, 3) { How::NoHint } else { How::Collect };
+            }
+            scens.push(c);
+        }
+        for s in specs.iter_mut() {
+            s.scen = rng.usize_below(scens.len());
+        }
+    }
     if faults_on {
         for s in specs.iter_mut() {
             if s.scope.is_some() {
@@ -525,12 +552,16 @@ fn gen_case(seed: u64, faults_on: bool, max_players: usize, small: bool) -> Case
         migrate: execs > 1,
         max_steps: 4 * (64 + 8 * prod * (NPOS as u64 + 2)) + 64 * specs.len() as u64,
     };
-    let mut w = World::with_built(vec![built.clone()], &specs, execs);
+    let mut builts = vec![built.clone()];
+    for sc in scens.iter().skip(1) {
+        builts.push(BuiltScen { scen: sc.clone(), ranges: Arc::new(sc.build_ranges()) });
+    }
+    let mut w = World::with_built(builts, &specs, execs);
     w.drain_cap = 64 + 8 * prod * (NPOS as u64 + 2);
     w.track_states = false;
     schedule(&mut w, &mut rng, &cfg);
     let run = Run {
-        scens: vec![scen.clone()],
+        scens: scens.clone(),
         specs,
         steps: w.trace.clone(),
         execs,
@@ -1073,7 +1104,28 @@ fn minimise_json(replay: &Value, _okey: &str, pred: &dyn Fn(&Value) -> bool) -> 
         return (replay.clone(), 0);
     }
     let Ok(run) = Run::from_json(replay) else { return (replay.clone(), 0) };
-    let fails = move |r: &Run| -> bool { pred(&to_replay(r)) };
+    // every scenario of a C04 run must stay the same contents as scenario 0 (they
+    // are differently built copies): a candidate that breaks this is not a valid run
+    fn consistent(r: &Run) -> bool {
+        let canon = |s: &Scenario| -> (Vec<u8>, Vec<Vec<(u8, u8, u32)>>) {
+            (
+                s.flop.to_vec(),
+                s.players
+                    .iter()
+                    .map(|p| {
+                        let mut m: BTreeMap<(u8, u8), u32> = BTreeMap::new();
+                        for e in &p.entries {
+                            m.insert((e.0, e.1), e.2);
+                        }
+                        m.into_iter().map(|(k, w)| (k.0, k.1, w)).collect()
+                    })
+                    .collect(),
+            )
+        };
+        let c0 = canon(&r.scens[0]);
+        r.scens.iter().all(|s| canon(s) == c0)
+    }
+    let fails = move |r: &Run| -> bool { consistent(r) && pred(&to_replay(r)) };
     let (min, tried) = shrink_run(
         run,
         &fails,
